@@ -142,6 +142,57 @@ Proof.
     rewrite (no_escape_unescape t He) in Hr. cbn [negb andb]. rewrite <- Hr. apply lossy_valid.
 Qed.
 
+(* ... and every ASCII byte of the input survives (no replacement swallows an ASCII byte) *)
+Lemma leb_false_lt k c : c < k -> (k <=? c) = false.
+Proof. intros H. apply N.leb_gt. exact H. Qed.
+
+Lemma second3_not_ascii x c : c <? 128 = true -> second3 x c = false.
+Proof.
+  intros H. apply N.ltb_lt in H. unfold second3, in_range.
+  rewrite (leb_false_lt 160 c), (leb_false_lt 128 c) by lia. cbn [andb]. now rewrite !andb_false_r.
+Qed.
+
+Lemma second4_not_ascii x c : c <? 128 = true -> second4 x c = false.
+Proof.
+  intros H. apply N.ltb_lt in H. unfold second4, in_range.
+  rewrite (leb_false_lt 144 c), (leb_false_lt 128 c) by lia. cbn [andb]. now rewrite !andb_false_r.
+Qed.
+
+Lemma cont_not_ascii c : c <? 128 = true -> is_cont c = false.
+Proof.
+  intros H. apply N.ltb_lt in H. rewrite is_cont_range by lia. unfold in_range.
+  now rewrite (leb_false_lt 128 c) by lia.
+Qed.
+
+Lemma lossy_keeps_ascii_aux n : forall b d, (length d <= n)%nat -> b <? 128 = true -> In b d -> In b (lossy d).
+Proof.
+  induction n as [|n IH]; intros b d Hl Hb.
+  - destruct d; [intros []|cbn in Hl; lia].
+  - destruct d as [|b0 r]; [intros []|]. cbn [length] in Hl. cbn [lossy].
+    split_ifs; cbn [length] in Hl; intros H;
+      repeat match goal with
+             | H : In _ (_ :: _) |- _ => destruct H as [<-|H]
+             | H : In _ [] |- _ => destruct H
+             end;
+      try congruence;
+      try (rewrite (cont_not_ascii _ Hb) in *; discriminate);
+      try (rewrite (second3_not_ascii _ _ Hb) in *; discriminate);
+      try (rewrite (second4_not_ascii _ _ Hb) in *; discriminate);
+      try (apply in_or_app; right);
+      cbn [In];
+      try (now left); try (right; now left); try (right; right; now left); try (right; right; right; now left);
+      try (right; apply IH; [cbn [length]; lia|exact Hb|cbn [In]; tauto]);
+      try (right; right; apply IH; [cbn [length]; lia|exact Hb|cbn [In]; tauto]);
+      try (right; right; right; apply IH; [cbn [length]; lia|exact Hb|cbn [In]; tauto]);
+      try (right; right; right; right; apply IH; [cbn [length]; lia|exact Hb|cbn [In]; tauto]);
+      try (apply IH; [cbn [length]; lia|exact Hb|cbn [In]; tauto]).
+Qed.
+
+Theorem lossy_ascii_bytes b d : b <? 128 = true -> (In b (lossy d) <-> In b d).
+Proof.
+  intros Hb. split; [now apply lossy_ascii_from_input|]. apply (lossy_keeps_ascii_aux (length d)); [lia|exact Hb].
+Qed.
+
 (* ---------- lossy decoding copies a well-formed prefix verbatim ---------- *)
 Lemma lossy_keeps_valid_prefix_aux n : forall a b, (length a <= n)%nat -> valid_utf8 a = true -> lossy (a ++ b) = a ++ lossy b.
 Proof.
